@@ -279,7 +279,7 @@ func (c *caseCtx) violate(class string, w map[string]interface{}) {
 	if class != "" {
 		key = "[" + class + "] " + key
 	}
-	c.run.Count("violation_kind:"+c.ti.name+":"+key, 1)
+	c.run.Count("flagged_kind:"+c.ti.name+":"+key, 1)
 	if path := os.Getenv("C13_DUMP"); path != "" { // development aid: every witness, one JSON line each
 		if fh, err := os.OpenFile(path, os.O_APPEND|os.O_CREATE|os.O_WRONLY, 0o644); err == nil {
 			b, _ := json.Marshal(map[string]interface{}{"case": c.i, "class": class, "witness": w})
@@ -320,6 +320,11 @@ func TestCheck(t *testing.T) {
 	run.Assume("forms model (forms_test.go): go-sql-driver/mysql text and binary protocol with and without parseTime, loc=UTC; go-mysql RowsEvent.decodeValue of the pinned version; TestModelAgainstRealDecoders pins the facts it relies on")
 	run.Assume("excluded as outside the quantifier: NaN/Inf; strings that are not valid UTF-8; times with sub-microsecond digits or outside 1000..9999; a pointer to a value that is itself NULL (nil slice, Null*{Valid:false}); FLOAT text output for values MySQL itself prints lossily (6 digits)")
 	run.Assume("binlog DATETIME(6): the pinned go-mysql drops the fraction, so the expected struct has the time cut to whole seconds")
+	run.Assume("filters (3 per case over 0..all columns; rows R = x, an unrelated row and two hybrids, each as decoded from MySQL's text form): judged when every value denotes a value of its column's Go type " +
+		"(own value, pointer to / dereferenced value, typed or untyped nil, the same integer in another Go integer type, the plain column's driver value); filters with a foreign-typed, out-of-range or inexact value, " +
+		"or the encoded bytes of a tagged/Valuer column, are executed and recorded (observation_illtyped_filter:*) but not judged")
+	run.Assume("database/sql path: private driver (driver_test.go) that returns exactly the staged forms and overwrites handed-out []byte buffers on the next Next/Close, as go-sql-driver's reused read buffer is; " +
+		"binlog path: hand-built RowsEvents in the forms validated against the real decoder, pushed through livesql.NewBinlogForVerif -> RunPollLoop; table column order in the fake information_schema is a permutation with one extra column")
 
 	z, err := buildZoo()
 	if err != nil {
